@@ -13,7 +13,7 @@ def main(tier, replay):
                 tier = l.split("tier=")[1].split()[0]
     chk = vlib.Check(PROP, tier, level="proof")
     audit = vlib.lean_gate(chk, PROP)
-    stats = vlib.run_differential(chk, PROP, "c01_geometry", tier, compare=lambda op, a, b: a == b or (op == "wf" and b == "WF?"))
+    stats = vlib.run_differential(chk, PROP, "c01_geometry", tier)
     vlib.standard_coverage(chk, stats,
         "real DataSymmetriesForBins_PET_CartesianGrid / find_basic_vs_nums_in_subset / subsets_are_approximately_balanced / "
         "IterativeReconstruction::get_subset_num (rand() scripted) on generated geometries: views 1..24 + seeded sample up to 96 (thorough: all 1..96), "
